@@ -94,12 +94,14 @@ Section Total.
   Variable fmt_float : bool -> N -> bytes.
   Variable any_inner : bytes -> bytes -> outcome bytes.
   Variable dsc : scalar_kind -> jvalue -> outcome (option pval).
+  Variable raw : jvalue -> bytes.
+  Variable any_back : option (bytes -> bytes -> outcome bytes).
   Variable env : env.
   Hypothesis Hflat : oneofs_flat env.
   Hypothesis Hscalar : scalar_rt_ok fmt_float dsc.
 
-  Notation rep_value := (rep_value any_inner env).
-  Notation rep_props := (rep_props any_inner env).
+  Notation rep_value := (rep_value any_inner raw any_back env).
+  Notation rep_props := (rep_props any_inner raw any_back env).
   Notation enc_value := (enc_value fmt_float any_inner env).
   Notation enc_object := (enc_object fmt_float any_inner env).
   Notation enc_oneof := (enc_oneof fmt_float any_inner env).
@@ -137,7 +139,7 @@ Section Total.
 
   Lemma any_total m : rep_value (FAny false) (VMsg m) -> exists txt, enc_any any_inner false m = Ok txt.
   Proof.
-    intros H. inversion H as [| | | | | |? Hu Hshape Hcomp (t & Ht)]; subst.
+    intros H. inversion H as [| | | | | |? Hu Hshape Hcomp (t & Ht) _|]; subst.
     unfold enc_any.
     assert (H1 : field_bytes 1 m = Ok (sfield 1 m)).
     { unfold field_bytes, sfield. destruct (msg_get 1 m) as [w|] eqn:E; [|reflexivity].
@@ -156,6 +158,30 @@ Section Total.
     rewrite Hdata. cbn [obind].
     destruct (escape_total txt_type eq_refl) as (l1 & ->). cbn [obind].
     destruct (escape_total (sfield 1 m) Hu) as (tt & ->). cbn [obind].
+    destruct (escape_total txt_value eq_refl) as (l2 & ->). cbn [obind]. eauto.
+  Qed.
+
+  Lemma trim_any_prefix tn : trim_prefix any_prefix (any_prefix ++ tn) = tn.
+  Proof.
+    unfold trim_prefix.
+    assert (Hsp : forall p t, strip_prefix p (p ++ t) = Some t).
+    { clear. induction p as [|c r IH]; intros t; cbn [app strip_prefix]; [reflexivity|]. rewrite N.eqb_refl. apply IH. }
+    rewrite Hsp. reflexivity.
+  Qed.
+
+  Lemma pbany_total m : rep_value (FAny true) (VMsg m) -> exists txt, enc_any any_inner true m = Ok txt.
+  Proof.
+    intros H. inversion H as [| | | | | | |? tn Hurl Hu Hshape (t & Ht) _]; subst.
+    unfold enc_any.
+    assert (H1 : field_bytes 1 m = Ok (sfield 1 m)).
+    { unfold field_bytes, sfield. destruct (msg_get 1 m) as [w|] eqn:E; [|reflexivity].
+      destruct (Hshape 1 w E) as [(_ & s & ->)|(Hn & _)]; [reflexivity|discriminate]. }
+    assert (H2 : field_bytes 2 m = Ok (sfield 2 m)).
+    { unfold field_bytes, sfield. destruct (msg_get 2 m) as [w|] eqn:E; [|reflexivity].
+      destruct (Hshape 2 w E) as [(Hn & _)|(_ & s & ->)]; [discriminate|reflexivity]. }
+    rewrite H1. cbn [obind]. rewrite Hurl, trim_any_prefix. rewrite H2. cbn [obind]. rewrite Ht. cbn [obind].
+    destruct (escape_total txt_type eq_refl) as (l1 & ->). cbn [obind].
+    destruct (escape_total tn Hu) as (tt & ->). cbn [obind].
     destruct (escape_total txt_value eq_refl) as (l2 & ->). cbn [obind]. eauto.
   Qed.
 
@@ -245,7 +271,7 @@ Section Total.
     - intros t v _ Hd. exfalso. destruct v; cbn [pval_depth] in Hd; lia.
     - intros t v Hrep Hd f Hf. destruct f as [|f]; [lia|]. rewrite enc_value_S.
       inversion Hrep as [k w Hs|r pre opts n name Elk Eon _ Hu|r ps m Elk Hp|r ps m Elk Hp Hone|it l Hne Hit Hall
-                         |it es Hne Hit Hnd Hall Hkeys|m Hu Hshape Hcomp Hany]; subst.
+                         |it es Hne Hit Hnd Hall Hkeys|m Hu Hshape Hcomp Hany Hbk|m tn Hurl Hu Hshape Hany Hbk]; subst.
       + destruct (Hscalar k v Hs) as (J & (txt & Ht & _) & _). eauto.
       + rewrite Elk, Eon. apply escape_total. exact Hu.
       + rewrite Elk. apply (object_total d IH ps m Hp Hd). lia.
@@ -272,9 +298,10 @@ Section Total.
           -- unfold omap. cbn [obind]. eauto.
         * rewrite Hxs. unfold omap. cbn [obind]. eauto.
       + apply any_total. exact Hrep.
+      + apply pbany_total. exact Hrep.
   Qed.
 
-  Theorem encode_total root m : rep_root any_inner env root m ->
+  Theorem encode_total root m : rep_root any_inner raw any_back env root m ->
     exists txt, encode fmt_float any_inner env root m = Ok txt.
   Proof.
     unfold rep_root, encode, encode_fuel. intros Hrep.
@@ -299,17 +326,16 @@ Section Total.
      decoder's nesting bound) gives an equivalent message *)
   Hypothesis Hnames : oneof_names_ok env.
   Hypothesis Hinner : inner_ok any_inner.
-  Variable raw : jvalue -> bytes.
   Hypothesis Hraw_ne : forall j, wfb j = true -> raw j <> [].
   Variable mapchk : bool.
 
-  Theorem codec_full root m : rep_root any_inner env root m ->
+  Theorem codec_full root m : rep_root any_inner raw any_back env root m ->
     exists txt J, encode fmt_float any_inner env root m = Ok txt /\ strict_parse txt = Some J /\
       (N.of_nat (jnest J) <= max_nesting ->
-       exists m', decode_tree dsc raw mapchk env root J = Ok m' /\ equiv_root any_inner raw env root m m').
+       exists m', decode_tree dsc raw mapchk any_back env root J = Ok m' /\ equiv_root any_inner raw any_back env root m m').
   Proof.
     intros Hrep. destruct (encode_total root m Hrep) as (txt & Henc).
-    destruct (codec_roundtrip fmt_float any_inner dsc raw Hraw_ne mapchk env Hflat Hnames Hscalar Hinner root m txt Hrep Henc)
+    destruct (codec_roundtrip fmt_float any_inner dsc raw Hraw_ne mapchk any_back env Hflat Hnames Hscalar Hinner root m txt Hrep Henc)
       as (J & HJ & Hdec).
     exists txt, J. repeat split; assumption.
   Qed.
